@@ -32,6 +32,13 @@ def run(chk):
     r = tv("Trace_Fields", "Trace_Fields.cfg", t, reset_events=("FieldBegin",), shards=12, tag="C08")
     chk.add_tv("fields", r)
     report_rejects(chk, r, sig, lambda ev, d: "field %s: decode->encode of a bit pattern violates Quant (event %s)" % (ev.get("id", ev.get("number")), json.dumps(ev)[:300]))
+    # the per-pattern events (boundaries, one-hot, inv neighbours, seeded) once more in the overflow-checks profile: "every
+    # other pattern decodes to a present, finite value" - a decode that panics there decodes to nothing
+    t2 = record("fields", chk.path("fields-relchk.ndjson"), profile="relchk", seed=chk.seed + 9, sweeps=0, samples=200 if q else 3000, timeout=7000)
+    r2 = tv("Trace_Fields", "Trace_Fields.cfg", t2, reset_events=("FieldBegin",), shards=12, tag="C08-relchk")
+    chk.add_tv("fields[relchk]", r2)
+    report_rejects(chk, r2, lambda ev, d: "[overflow-checks] " + sig(ev, d),
+                   lambda ev, d: "[overflow-checks] field %s: decode->encode of a bit pattern violates Quant or panics (event %s)" % (ev.get("id", ev.get("number")), json.dumps(ev)[:300]))
     tried = 0
     fields_full = set()
     n_obs = 0
